@@ -33,19 +33,26 @@ Kind(x) == IF x \in {"full", "delta"} THEN "data" ELSE x
 (* outside the listed names), "lit" (no file data under -n)                    *)
 J == {Tr.judge[i] : i \in 1..Len(Tr.judge)}
 
+(* owners by NAME: the sender's id lists give names to ids; an id whose name is known on the receiving side is  *)
+(* mapped to the local id of that name (umap/gmap: <<[id, lid]>>, lid = -1 when the name is unknown here), every *)
+(* other id is used as the number it is.  EList is the file list as the receiving side has to understand it.     *)
+MapId(m, id) == IF \E j \in 1..Len(m) : m[j].id = id /\ m[j].lid >= 0
+                THEN m[CHOOSE j \in 1..Len(m) : m[j].id = id /\ m[j].lid >= 0].lid ELSE id
+EList == [i \in 1..Len(Tr.list) |-> [Tr.list[i] EXCEPT !.uid = MapId(Tr.umap, @), !.gid = MapId(Tr.gmap, @)]]
+
 TInit == /\ t \in 1..Len(Traces) /\ k = 0 /\ r = 0 /\ st = "del"
          /\ cur = ToFs(Tr.dst)
 
 TDelete == /\ st = "del"
            /\ Tr.result = "ok"                         \* in the stated domains a session must succeed
            /\ Tr.universe = Universe
-           /\ cur' = AfterDelete(cur, Tr.list, Tr.opts, Tr.ioerr, Prot)
+           /\ cur' = AfterDelete(cur, EList, Tr.opts, Tr.ioerr, Prot)
            /\ st' = "gen" /\ UNCHANGED <<t, k, r>>
 
 (* the generator handles entry k+1; if the spec says it requests the file, *)
 (* the next recorded request must be exactly that one                      *)
 TGen == /\ st = "gen" /\ k < Len(Tr.list)
-        /\ LET e == Tr.list[k + 1]
+        /\ LET e == EList[k + 1]
                g == GenStep(cur, e, Tr.opts)
                hasReq == r < Len(Tr.reqs) /\ Tr.reqs[r + 1].name = e.name
            IN
